@@ -28,12 +28,12 @@ PROPS = {
     "C01": {"families": [("hist", "general", 500), ("hist", "keys", 300), ("update", None, 2500)], "obligations": P("Props.Reach", "Props.C01", "Props.Refine", "Props.RefineMore", "Props.RefineBatch", "Lemmas.Order", "Lemmas.Search", "Lemmas.Assoc"), "rule": HIST_RULE},
     "C02": {"families": [("hist", "search", 500), ("hist", "index", 200), ("race", None, 1)], "obligations": [(TL, "Minidyn.Tie.wellLocked_generated_v1"), (TL, "Minidyn.Tie.wellLocked_generated_v2")] + P("Props.C02", "Props.C03Read", "Props.Reach", "Props.C01", "Lemmas.Order", "Lemmas.Search"), "rule": HIST_RULE},
     "C03": {"families": [("hist", "index", 600)], "obligations": P("Props.C03", "Props.C03Read", "Props.Reach"), "rule": HIST_RULE},
-    "C04": {"families": [("hist", "search", 600)], "obligations": P("Props.C04Paging", "Props.C04Index", "Props.C13Start", "Props.ReachGen", "Lemmas.Chain", "Props.C04", "Props.C02", "Props.C13", "Lemmas.Order", "Lemmas.Search"), "rule": HIST_RULE},
+    "C04": {"families": [("hist", "search", 600), ("hist", "index", 200)], "obligations": P("Props.C04Paging", "Props.C04Index", "Props.C13Start", "Props.ReachGen", "Lemmas.Chain", "Props.C04", "Props.C02", "Props.C13", "Lemmas.Order", "Lemmas.Search"), "rule": HIST_RULE},
     "C05": {"families": [("hist", "cond", 600), ("match", None, 1200), ("race", None, 1)], "obligations": P("Props.C05", "Props.C05Seq", "Props.C05Lit") + [(TL, "Minidyn.Tie.wellLocked_generated_v1"), (TL, "Minidyn.Tie.wellLocked_generated_v2")], "rule": HIST_RULE},
     "C06": {"families": [("match", None, 6000)], "obligations": P("Props.C06", "Props.C06Sets") + TABLE_TIES + EVAL_TIES, "rule": EXPR_RULE},
     "C07": {"families": [("update", None, 6000)], "obligations": P("Props.C07") + TABLE_TIES + EVAL_TIES, "rule": EXPR_RULE},
     "C08": {"families": [("hist", "fail", 600)], "obligations": P("Props.C08", "Props.Refine"), "rule": HIST_RULE},
-    "C09": {"families": [("match", None, 3000), ("update", None, 3000), ("garbage", None, 4000), ("hist", "fail", 300)], "obligations": P("Props.C09") + TABLE_TIES, "rule": EXPR_RULE},
+    "C09": {"families": [("match", None, 3000), ("update", None, 3000), ("garbage", None, 4000), ("hist", "fail", 300), ("hist", "native", 150)], "obligations": P("Props.C09") + TABLE_TIES, "rule": EXPR_RULE},
     "C10": {"families": [("hist", "values", 500), ("poke", None, 80), ("match", None, 1500)], "obligations": P("Props.C10", "Props.Refine"), "rule": HIST_RULE},
     "C11": {"families": [("race", None, 1)], "obligations": P("Props.C11") + [(TL, "Minidyn.Tie.wellLocked_generated_v1"), (TL, "Minidyn.Tie.wellLocked_generated_v2"),
                                                               (TL, "Minidyn.Tie.wellLocked_nonvacuous")], "rule": "pairs of client methods run concurrently under the race detector"},
@@ -43,7 +43,7 @@ PROPS = {
                                                                (TS, "Minidyn.Tie.sharing_covers_mappers"), (TS, "Minidyn.Tie.no_singleton_leak"), (TS, "Minidyn.Tie.copy_helpers_reviewed")],
             "rule": "every mutable location of generated value trees is written after a write / on a read result, then re-read"},
     "C15": {"families": [("hist", "emul", 600)], "obligations": P("Props.C15") + CLIENT_TIES, "rule": HIST_RULE},
-    "C16": {"families": [("hist", "fail", 300), ("hist", "batch", 200), ("reserved", None, 1), ("match", None, 2000)], "obligations": P("Props.C16") + CLIENT_TIES, "rule": HIST_RULE},
+    "C16": {"families": [("hist", "fail", 300), ("hist", "batch", 200), ("reserved", None, 1), ("match", None, 2000), ("decomp", None, 150)], "obligations": P("Props.C16") + CLIENT_TIES, "rule": HIST_RULE},
     "C17": {"families": [("hist", "general", 300), ("hist", "lifecycle", 200), ("hist", "emul", 200), ("hist", "native", 150)], "obligations": P("Props.C17", "Props.C10"), "rule": HIST_RULE},
     "C18": {"families": [("hist", "lifecycle", 600)], "obligations": P("Props.C18") + [(TS, "Minidyn.Tie.no_singleton_leak")], "rule": HIST_RULE},
     "C19": {"families": [("hist", "batch", 600), ("decomp", None, 300), ("poke", None, 40)], "obligations": P("Props.C19", "Props.C19Get", "Props.RefineBatch") + CLIENT_TIES[:1], "rule": HIST_RULE},
